@@ -950,7 +950,7 @@ func (e *wireExec) roundtrip(w *wireTok) {
 				continue
 			}
 		}
-		attrs := map[string]string{"alg": w.alg, "codec": name, "type": w.spec.Kind, "integral_float": fmt.Sprint(w.intFlt), "invalid_utf8": fmt.Sprint(w.rawStr)}
+		attrs := map[string]string{"alg": w.alg, "codec": name, "type": w.spec.Kind, "integral_float": fmt.Sprint(w.intFlt), "invalid_utf8": fmt.Sprint(w.rawStr), "null_value": fmt.Sprint(hasTopLevelNull(w.obj))}
 		decs := cborDecoders
 		if codec == "json" {
 			decs = jsonDecoders
@@ -1389,7 +1389,7 @@ func (e *wireExec) byzStep(s *XStep, w *wireTok, env *envelope) {
 		desc = fmt.Sprintf("cmd %q", c)
 	case "other_tag":
 		// the payload under the other type's tag, or an unknown tag
-		tags := []string{tagDlg, tagInv, "ucan/zzz@1.0.0", "ucan/", m.tag + "x", m.tag[:len(m.tag)-1], "ucan/dlg@1.0.0-rc.2", "UCAN/" + m.tag[5:]}
+		tags := []string{tagDlg, tagInv, "ucan/zzz@1.0.0", "ucan/", m.tag + "x", m.tag[:len(m.tag)-1], "ucan/dlg@1.0.0-rc.2", "UCAN/" + m.tag[5:], "ucan/dlg@2.0.0", "ucan/invoke@1", "ucan/inv", "ucan/dlg"}
 		nt := tags[s.Val%len(tags)]
 		if nt == m.tag {
 			return
@@ -1672,6 +1672,54 @@ func (e *wireExec) hostileStep(s *XStep, w *wireTok, env *envelope) {
 		return
 	case "match": // policy matching against arbitrary argument data
 		e.matchHostile(s)
+		return
+	case "envelope": // envelopes of hostile shape (nothing here can carry a valid signature)
+		pay := m.payload.Clone()
+		shapes := []*CB{
+			cbArray(cbBytes([]byte{1})),                                                // one element
+			cbArray(),                                                                  // none
+			cbArray(cbBytes([]byte{1}), cbArray(cbInt(1))),                             // second element not a map
+			cbArray(cbBytes([]byte{1}), cbInt(1)),                                      // ... a scalar
+			cbArray(cbText("sig"), cbMap(cbText("h"), cbBytes([]byte{0x34}), cbText(m.tag), pay)), // signature not bytes
+			cbArray(cbBytes([]byte{1}), &CB{Major: 5, Kids: []*CB{cbInt(1), cbBytes([]byte{0x34}), cbText(m.tag), pay}}), // key not a string
+			cbArray(cbBytes([]byte{1}), cbMap(cbText("h"), cbText("notbytes"), cbText(m.tag), pay)),
+			cbArray(cbBytes([]byte{1}), cbMap(cbText("h"), cbBytes([]byte{0x34}), cbText(m.tag), cbInt(1))), // payload not a map
+			cbArray(cbBytes([]byte{1}), cbMap(cbText("h"), cbBytes([]byte{0x34}), cbText(m.tag), cbMap(cbText("iss"), cbInt(1)))),
+			cbArray(cbBytes([]byte{1}), cbMap(cbText("h"), cbBytes([]byte{0x34}), cbText(m.tag), cbMap())),
+			cbMap(cbText("a"), cbInt(1)),
+			cbInt(7),
+			cbArray(cbBytes([]byte{1}), cbMap(cbText("h"), cbBytes([]byte{0x34}), cbText(m.tag), pay), cbInt(3)), // three elements
+			cbArray(cbNull(), cbNull()),
+			cbArray(cbBytes(nil), cbMap()),
+		}
+		data := shapes[s.Val%len(shapes)].Encode()
+		acc := e.offer(data, "cbor", kind, false, true)
+		o.Fault("hostile_envelope")
+		o.Sig("C09", "envelope", s.Val%len(shapes), len(acc) > 0)
+		if len(acc) > 0 {
+			o.Violate("C06", "forged-content-accepted", "a decoder accepted an envelope of hostile shape that nobody signed", map[string]string{"mutation": "hostile envelope"})
+		}
+		return
+	case "glob": // attacker-chosen like patterns against attacker-chosen strings
+		pats := []string{"*a*a*a*a*a*a*a*a*a*a*a*a*a*a*a*a*b", "a*a*a*a*a*a*a*a*a*a*a*a*a*a*a*a*a*a*a*c", "**", "*", "", "\\*", "a\\", "*\\**", "\\a*", strings.Repeat("*a", 40) + "b", strings.Repeat("*", 200), "a*" + strings.Repeat("\\*", 30)}
+		strs := []string{"", strings.Repeat("a", 40), strings.Repeat("a", 400), strings.Repeat("a", 3000), "*", "\\", strings.Repeat("ab", 500), strings.Repeat("*", 100)}
+		pat, str := pats[s.Val%len(pats)], strs[s.At%len(strs)]
+		js := fmt.Sprintf(`[["like", ".s", %q], ["any", ".l", ["like", ".", %q]], ["not", ["like", ".s", %q]]]`, pat, pat, pat)
+		argRaw := cbMap(cbText("s"), cbText(str), cbText("l"), cbArray(cbText(str), cbText(str+"b"), cbInt(1))).Encode()
+		argNode, aerr := ipld.Decode(argRaw, dagcbor.Decode)
+		if aerr != nil {
+			return
+		}
+		var pol policy.Policy
+		var perr error
+		st := guardT(o, "policy.FromDagJson(glob)", len(js), false, func() { pol, perr = policy.FromDagJson(js) })
+		o.Eval("C09")
+		o.Fault("hostile_glob")
+		o.Sig("C09", "glob", s.Val%len(pats), s.At%len(strs), perr == nil)
+		if st.panicked || st.hung || perr != nil {
+			return
+		}
+		guardT(o, "Policy.Match(glob)", len(js)+len(argRaw), true, func() { pol.Match(argNode); pol.PartialMatch(argNode) })
 		return
 	default:
 		return
